@@ -11,8 +11,10 @@
 
   Environment inputs, recorded from the run and put on two tapes in the state before every
   operation: the endpoints returned by `random.choice(list(self._idle_endpoints))` and, per
-  `_AdjustAperture` call, the decay weight and the value returned by the real `Ema.Update` as exact
-  rationals.  A choice that is not an idle endpoint, a missing tape entry, an operation that the
+  `_AdjustAperture` call, the decay weight and the value returned by the real `Ema.Update` and the
+  wall-clock reading of `MonoClock.Sample()` (seconds since the clock was created) as exact rationals.
+  The clock itself is modelled (`AS.clock` is `MonoClock._last`): the wall clock may step backwards, the
+  sampled time does not.  A choice that is not an idle endpoint, a missing tape entry, an operation that the
   implementation cannot be asked to perform in the current state: the model sets `bad` (and carries
   on with a legal default), the hypothesis `wf` of the theorems excludes it.  Import-free.
 -/
@@ -50,8 +52,12 @@ instance : Inhabited ONode := ⟨⟨0, none, false, true⟩⟩
 
 /-- inputs of one `_AdjustAperture` call -/
 structure AdjIn where
+  /-- the decay weight `math.exp(-dt / window)` the implementation computed (unused for the first sample) -/
   w : Rat
+  /-- the value the real `Ema.Update` returned -/
   avg : Rat
+  /-- what `time.time()` returned inside `MonoClock.Sample()`, relative to the reading `MonoClock.__init__` took -/
+  now : Rat
   deriving Repr
 
 /-- what one `_AdjustAperture` call saw and did -/
@@ -64,8 +70,17 @@ structure AdjRec where
   avg : Rat
   size' : Nat
   idle' : Nat
-  /-- the value of the real `Ema.Update` agrees with the rational EMA (Model/Ema.lean) -/
+  /-- the value of the real `Ema.Update` agrees with one rational EMA step (Model/Ema.lean) from the
+      value it returned the time before -/
   emaOk : Bool
+  /-- the sampled time minus the time of the previous sample (`delta` of `Ema.Update`; 0 for the first sample) -/
+  dt : Rat
+  /-- the decay weight used (0 for the first sample, which is taken as it is) -/
+  w : Rat
+  /-- the smoothed value before the call (`none`: no sample yet) -/
+  prev : Option Rat
+  /-- the sample: `_total` after `amount` was added -/
+  sample : Int
   deriving Repr, DecidableEq
 
 structure AS where
@@ -73,7 +88,8 @@ structure AS where
   idle : List Nat := []            -- `_idle_endpoints`
   pending : List Nat := []         -- `_pending_endpoints`
   total : Int := 0                 -- `_total`
-  ema : Option Rat := none         -- rational twin of `_ema`
+  ema : Option Rat := none         -- `_ema.value` (`none` before the first sample: `_ema._time == -1`)
+  clock : Rat := 0                 -- `_time._last` (= `_ema._time` once a sample was taken), relative to its first reading
   isOpen : Bool := false           -- `HeapBalancerSink._open`
   on : List ONode := []            -- node id ↦ open bookkeeping (same length as `hs.nodes`)
   initialNodes : List Nat := []    -- the nodes `_OpenInitialChannels` opened
@@ -205,21 +221,25 @@ def AS.decision (cfg : Cfg) (a : AS) (avg : Rat) : Decision :=
 /-- `_AdjustAperture(amount)` with the inputs `i` of this call (`missing`: the tape was empty) -/
 def AS.adjustWith (cfg : Cfg) (a : AS) (amount : Int) (i : AdjIn) (rest : List AdjIn) (missing : Bool) : AS :=
   let total' := a.total + amount
-  let ema' := Ema.update a.ema i.w (total' : Rat)
+  let ts := MonoClock.sample a.clock i.now
+  let dt : Rat := if a.ema.isSome then ts - a.clock else 0
+  let w : Rat := if a.ema.isSome then i.w else 0
+  let ema' := Ema.update a.ema w (total' : Rat)
   let emaOk := decide (ratAbs (ema' - i.avg) ≤ emaTol * (1 + ratAbs ema'))
-  let a1 : AS := { a with total := total', ema := some ema', adjIn := rest, bad := a.bad || missing }
+  let a1 : AS := { a with total := total', ema := some i.avg, clock := ts, adjIn := rest, bad := a.bad || missing }
   let a2 :=
     match a1.decision cfg i.avg with
     | .expand => (a1.tryExpand cfg false).1
     | .contract => a1.contract cfg false
     | .stay => a1
   { a2 with adjLog := a2.adjLog ++
-      [⟨a.hs.size, a.idle.length, a.pending.length, a.numHealthy, i.avg, a2.hs.size, a2.idle.length, emaOk⟩] }
+      [⟨a.hs.size, a.idle.length, a.pending.length, a.numHealthy, i.avg, a2.hs.size, a2.idle.length, emaOk,
+        dt, w, a.ema, total'⟩] }
 
 /-- `_AdjustAperture(amount)` -/
 def AS.adjust (cfg : Cfg) (a : AS) (amount : Int) : AS :=
   match a.adjIn with
-  | [] => a.adjustWith cfg amount ⟨0, 0⟩ [] true
+  | [] => a.adjustWith cfg amount ⟨0, 0, 0⟩ [] true
   | i :: rest => a.adjustWith cfg amount i rest false
 
 /-- `__Get` with the aperture's `_OnNodeDown` in the loop (cf. `HS.getLoop`) -/
